@@ -32,9 +32,14 @@ class JsonStub:
             raise TypeError(f"Object of type {type(t)._name} is not JSON serializable")
         raise TypeError(f"Object of type {type(t).__name__} is not JSON serializable")
 
+    MORE = "\n<further lines of the indented document>"
+
     def dumps(self, tree, **kw):
         key = f"<json-document-{len(self.store)}>"
         self.store[key] = self._norm(tree)
+        # with indent= a non-empty document spans several lines: its first line alone is not a JSON document
+        if kw.get("indent") is not None and isinstance(tree, (dict, list, tuple)) and len(tree):
+            return key + self.MORE
         return key
 
     def _copy(self, t):
@@ -45,13 +50,19 @@ class JsonStub:
         return t
 
     def loads(self, text, **kw):
+        if isinstance(text, str) and text.endswith(self.MORE) and text[: -len(self.MORE)] in self.store:
+            text = text[: -len(self.MORE)]
         if text not in self.store:
             import json
 
+            if isinstance(text, str) and text.rstrip("\n") in self.store:
+                raise json.JSONDecodeError("Expecting property name enclosed in double quotes (truncated multi-line document)", text, len(text))
             return json.loads(text)
         return self._copy(self.store[text])
 
     def tree(self, text):
+        if isinstance(text, str) and text.endswith(self.MORE):
+            text = text[: -len(self.MORE)]
         return self.store[text]
 
 
@@ -78,6 +89,14 @@ class MemoryFiles:
                 if str(path) not in fs.files:
                     raise FileNotFoundError(path)
                 return fs.files[str(path)]
+
+            def readline(self_f):
+                text = self_f.read()
+                i = text.find("\n")
+                return text if i < 0 else text[: i + 1]
+
+            def readlines(self_f):
+                return self_f.read().splitlines(keepends=True)
 
         if "r" in mode and str(path) not in self.files:
             raise FileNotFoundError(path)
